@@ -85,6 +85,18 @@ CHECKS["C13"] = dict(
     note=COMMON_NOTE + " The density clause is tied for |gamma| >= 0.005 or exactly 0; numpy's Generator is trusted to sample the "
          "requested uniform laws; KS/mass tests use a two-stage rule (KS*sqrt(n) > 3 or |z| > 6.5, confirmed with 4x samples).")
 
+CHECKS["C14"] = dict(
+    technique="Coq proof over the reals for an arbitrary force field (Model/Verlet.v, Proofs/VerletProofs.v, Props/C14.v) + "
+              "correspondence of real Verlet.integrate / maxwell_boltzmann_distribution / HamiltonianDisplacementMove with the same "
+              "definitions evaluated by the Coq-Interval tactic and vm_compute",
+    text="Theorems: integrate^n . flip . integrate^n = flip exactly, for every force field, masses, dt, n; kick-drift-kick shear form; "
+         "harmonic wells: shadow energy conserved exactly, so |dH| <= a/(1-a) H~ with a = k dt^2/4m for every step count (the O(dt^2) "
+         "law); refresh p = xi sqrt(m kT) (variance m kT, linear in the StdNormal draw), forced refresh hits the target temperature "
+         "up to the 1e-15 regulariser; the kinetic energy handed to the criteria is that of the successful attempt's fresh momenta. "
+         "Partial: energy-error order for anharmonic potentials is measured (Richardson ratios), not proved.",
+    ref="§4 C14",
+    note=COMMON_NOTE + " Float/real gap: reversibility checked to 1e-9 relative, model comparison to 1e-12 relative.")
+
 NA_REASON = "check not built yet in this round (see DESIGN.md §8 order of construction); no weaker technique substituted"
 
 
